@@ -1,9 +1,10 @@
 """Driver shared by C09 / C10 / C16: runs the in-flight pipelines and reports the findings attributed to one property."""
 import time
 
+import conc
 import conn
 import inflight
-from common import Scratch, Verdict, log, write_evidence
+from common import Scratch, Verdict, build_harness, log, write_evidence
 
 
 def run_inflight(prop, tier):
@@ -21,6 +22,15 @@ def run_inflight(prop, tier):
         if others:
             log("NOTE %d finding(s) of this run belong to other properties (%s) and are reported by their checks" % (
                 others, ",".join(sorted({p for f in seq["findings"] for p in f["props"]} - {prop}))))
+        # concurrent layer: every interleaving of the gate-to-gate steps of small thread programs (InFlightConc.tla) forced
+        # onto real goroutines; the histories they produce judged by InFlightLin.tla against InFlightAbs
+        h = build_harness(s)
+        neg = conc.negative_controls(s)
+        cc = conc.run_conc(s, h, tier, prop)
+        for x in cc["violations"]:
+            v.violation(x["sig"], x["detail"], x["replay"])
+        for n in cc["notes"]:
+            log("NOTE " + n[:800])
         connres = None
         if prop == "C16":
             # connection level: a fault (close of either side, context cancel, loss of the peer) at every step of every
@@ -33,9 +43,20 @@ def run_inflight(prop, tier):
         unlisted = v.finish()
         extra_states = connres["states"] if connres else 0
         extra_runs = connres["evaluations"] if connres else 0
-        cov = dict(states=seq["states"] + extra_states, transitions=seq["transitions"] + (connres["transitions"] if connres else 0),
-                   traces_validated_against_impl=seq["traces"] + extra_runs,
-                   evaluations=seq["evaluations"] + extra_runs, distinct_nontrivial=seq["distinct"] + (connres["distinct"] if connres else 0),
+        cov = dict(states=seq["states"] + extra_states + cc["states"], transitions=seq["transitions"] + (connres["transitions"] if connres else 0) + cc["transitions"],
+                   traces_validated_against_impl=seq["traces"] + extra_runs + cc["histories"],
+                   evaluations=seq["evaluations"] + extra_runs + cc["walks"], distinct_nontrivial=seq["distinct"] + (connres["distinct"] if connres else 0) + cc["histories"],
+                   concurrent_layer=dict(
+                       rule="InFlightConc.tla: one process per calling goroutine, one step per stretch of client/inflight.go between two gate "
+                            "points; TLC checks UniqueAccepted, Bounded, NoOrphan, Conserved, ClosedCompletes, RoutedById, OnceOnly, Delivered in "
+                            "every state of every interleaving and prints the transition graph; every walk of the graph (or a uniform sample "
+                            "plus a walk through every edge) is forced onto real goroutines through client.VerifGate, comparing gate / result / "
+                            "free ids / registered ids / closed flag after every step and every request at the end; the call/return history of "
+                            "every execution is validated by TLC against InFlightAbs (InFlightLin.tla: linearizable with the recorded results "
+                            "and the final observation). Verdicts: histories InFlightLin rejects, panics, reproduced stalls.",
+                       states=cc["states"], edges=cc["edges"], edges_replayed=cc["edges_replayed"], schedules_in_model=cc["schedules_in_model"],
+                       schedules_forced=cc["walks"], distinct_histories=cc["histories"], histories_accepted=cc["accepted"], drifted_walks=cc["drifted"],
+                       negative_controls=neg, runs=cc["runs"]),
                    rule="sequential layer: every history of API calls up to the depth bound (TLC keeps the history in the state) and "
                         "random walks (-simulate) of InFlightSeq.tla are executed on the real handler inside synctest bubbles; after "
                         "every call the projection (free-id queue, table, per-request id/managed/pending/done/error class, call "
